@@ -15,9 +15,23 @@ fn c11_b_defsrc_identity() {
         Action::KeyCode(kc) => {
             assert!(i != 0);
             assert!(kc as u16 as usize == i);
-            assert!(i <= 748);
+            assert!(i <= 748 || i == 767);
         }
-        Action::NoOp => assert!(i == 0 || i > 748),
+        Action::NoOp => assert!(i == 0 || (i > 748 && i != 767)),
         _ => panic!("defsrc layer holds something other than a key or no-op"),
     }
+}
+
+/// C02 / C03: every key code kanata knows (0..=OsCode::KEY_MAX, see c11_k_codes) is used as a
+/// column index into a layer row of KEYS_IN_ROW actions (parse_layers, Layout::resolve_coord,
+/// src_keys): the row must be wide enough for the largest code.
+#[kani::proof]
+fn c02_k_key_max_fits_row() {
+    assert!((OsCode::KEY_MAX as usize) < KEYS_IN_ROW);
+    // a code accepted by deflocalkeys / defsrc: any c with from_u16(c) = Some(_) is <= KEY_MAX
+    let c: u16 = kani::any();
+    kani::assume(c <= OsCode::KEY_MAX as u16);
+    assert!((c as usize) < KEYS_IN_ROW);
+    let row = [KanataAction::NoOp; KEYS_IN_ROW];
+    let _ = row[c as usize];
 }
